@@ -22,6 +22,9 @@ RULE = ("cases = (routine, rows, length, polarity) 1-D operators and (HxW, J, le
 
 def run(rep):
     if rep.tier == "thorough":
+        from .. import proofs
+        proofs.attach(rep, "DTCWT1Proofs")      # TLAPS: the scalar index layer of this family for ALL sizes
+    if rep.tier == "thorough":
         from .. import apalache
         apalache.shape_lemmas(rep)
     fnd = Findings()
